@@ -244,13 +244,13 @@ segment_init = FunctionSpec(
     params=dict(self=OBJ('AlignmentSegment'), positions=LIST(SCORED), segmentScore=REAL, peak=PEAK, allPeakPositions=LIST(SCORED)), returns=NONE,
     ensures=lambda C, res: [('fields_stored_as_given', z3.And(same_list(C.self.positions, C.positions), C.self.segmentScore == C.segmentScore,
                                                              C.self.peak.ref == C.peak.ref)),
-                            ('class_invariant_a_segment_with_a_pair_has_aligned_positions', CLASS_INVARIANTS['AlignmentSegment'](C._e, C.self))],
+                            ('class_invariant_a_segment_with_a_pair_has_aligned_positions', CLASS_INVARIANTS['AlignmentSegment'][0](C._e, C.self))],
     serves=('C14', 'C15', 'C01'), verify_only=True,
     note="class invariant of AlignmentSegment: if any position is an aligned pair, alignedPositions (the pairs among the positions) is not empty")
 empty_segment_init = FunctionSpec(
     file='src/alignment/segments.py', qualname='EmptyAlignmentSegment.__init__',
     params=dict(self=OBJ('EmptyAlignmentSegment'), peak=OPT(PEAK), allPeakPositions=OPT(LIST(SCORED))), returns=NONE,
-    ensures=lambda C, res: [('class_invariant_an_empty_segment_has_no_positions_and_score_zero', CLASS_INVARIANTS['EmptyAlignmentSegment'](C._e, C.self))],
+    ensures=lambda C, res: [('class_invariant_an_empty_segment_has_no_positions_and_score_zero', CLASS_INVARIANTS['EmptyAlignmentSegment'][0](C._e, C.self))],
     serves=('C14', 'C15', 'C01'), verify_only=True,
     note="class invariant of EmptyAlignmentSegment: no positions, no aligned positions, score 0")
 
